@@ -27,8 +27,13 @@ class Analyzer(Interp):
         self.param_pairs = kw.get('param_pairs') or {}
         self.contracts = {}            # qname -> callable(an, fn, call node, state, frame, arg values) -> [(state, value)] (summaries)
         self.max_depth = MAX_INLINE_DEPTH
+        self.max_states = MAX_STATES
         self.call_stack = []
         self.loop_notes = []
+        self._gcache = {}
+        self.watch = None              # predicate(callee qname): log (fn, node, callee, arg values, state copy) at each such call
+        self.calls = []
+        self._gbusy = set()
 
     # ---- sizes of objects whose address is taken ---------------------------------------------------------------
     ABI_SIZES = {'in_addr': 4, 'struct in_addr': 4, 'in6_addr': 16, 'struct in6_addr': 16, 'sockaddr_in': 16, 'sockaddr_in6': 28,
@@ -89,9 +94,32 @@ class Analyzer(Interp):
         bytey = lambda x: any(b in x for b in ('char', 'unsigned char', 'signed char', 'std::byte', 'void'))
         return (s, v if isinstance(v, Ptr) and bytey(ft) and bytey(t) else UNK)
 
+    def global_value(self, q):
+        """Value of a namespace-scope constant whose initialiser folds to a constant in this interpreter (durations included)."""
+        if q in self._gcache:
+            return self._gcache[q]
+        g = self.P.globals.get(q)
+        val = None
+        if g is not None and (g.get('const') or g.get('constexpr')) and g.get('init') is not None and g['init'] >= 0 and q not in self._gbusy:
+            from .prog import Fn
+            self._gbusy.add(q)
+            try:
+                pf = Fn({'q': q, 'file': g.get('file', ''), 'line': g.get('line', 0), 'end': g.get('line', 0), 'nodes': g['nodes'], 'body': g['init'], 'params': []}, None)
+                res = self.silent(lambda: self.ev(pf, g['init'], State(), Frame(pf, 0)))
+                if len(res) == 1 and isinstance(res[0][1], Lin) and res[0][1].is_const():
+                    val = res[0][1]
+            finally:
+                self._gbusy.discard(q)
+        self._gcache[q] = val
+        return val
+
     def ev(self, fn, n, st, fr):
         if n is not None and n >= 0:
             nd = fn.nodes[n]
+            if nd['k'] == 'DeclRefExpr' and nd.get('g') and 'cv' not in nd and nd.get('q'):
+                gv = self.global_value(nd['q'])
+                if gv is not None:
+                    return [(st, gv)]
             if nd['k'] == 'InitListExpr':
                 rec = self.P.records.get((nd.get('t') or '').replace('const ', '').strip())
                 if rec is not None:
@@ -140,7 +168,7 @@ class Analyzer(Interp):
             p = [x for x in fn.params if x['n'] == pn][0]
             buf = 'buf_' + pn
             lv = pvals.get(ln)
-            st.lens[buf] = lv if isinstance(lv, Lin) else self.fresh(st, 'len', 'unsigned long')
+            st.lens[buf] = lv if isinstance(lv, Lin) else self.fresh_len(st)
             st.env[('v', fr.id, p['d'])] = Ptr(buf, 0)
             pvals[pn] = st.env[('v', fr.id, p['d'])]
         if pre is not None:
@@ -166,9 +194,9 @@ class Analyzer(Interp):
     # ---- state set maintenance -----------------------------------------------------------------------------------------
     def prune(self, states):
         out = [s for s in states if not s.dead and not s.cons.bottom]
-        if len(out) > MAX_STATES:
+        if len(out) > self.max_states:
             # merge the tail pairwise
-            while len(out) > MAX_STATES:
+            while len(out) > self.max_states:
                 a = out.pop()
                 b = out.pop()
                 out.append(self.join(a, b))
@@ -188,17 +216,39 @@ class Analyzer(Interp):
                 s.env[k] = va
             elif isinstance(va, Lin) and isinstance(vb, Lin):
                 z = self.fresh(s, 'j')
-                ba, bb = self.const_bounds(a, va), self.const_bounds(b, vb)
-                if ba and bb:
-                    s.cons.add_le(Lin.const(min(ba[0], bb[0])) - z)
-                    s.cons.add_le(z - max(ba[1], bb[1]))
+                la, lb = self.tight_bound(a, va, False), self.tight_bound(b, vb, False)
+                ha, hb = self.tight_bound(a, va, True), self.tight_bound(b, vb, True)
+                if la is not None and lb is not None:
+                    s.cons.add_le(Lin.const(min(la, lb)) - z)
+                if ha is not None and hb is not None:
+                    s.cons.add_le(z - max(ha, hb))
                 s.env[k] = z
         for k, la in a.lens.items():
             lb = b.lens.get(k)
             if lb is not None and la == lb:
                 s.lens[k] = la
             elif lb is not None:
-                s.lens[k] = self.fresh(s, 'len', 'unsigned long')
+                s.lens[k] = self.fresh_len(s)
+        # orderings between a merged value and the other integer values, when they hold on both sides
+        merged = [k for k, v in s.env.items() if isinstance(v, Lin) and isinstance(a.env.get(k), Lin) and a.env[k] != b.env.get(k)]
+        if merged and len(merged) <= 12:
+            from .lin import _cone
+            others = [k for k, v in s.env.items() if isinstance(v, Lin) and isinstance(a.env.get(k), Lin) and isinstance(b.env.get(k), Lin)]
+            for k in merged:
+                za, zb, z = a.env[k], b.env[k], s.env[k]
+                rel = set(za.syms()) | set(zb.syms())
+                for c_ in _cone(a.cons.cs, za.syms()) + _cone(b.cons.cs, zb.syms()):
+                    rel |= c_.syms()
+                for k2 in others:
+                    if k2 == k:
+                        continue
+                    wa, wb, w = a.env[k2], b.env[k2], s.env[k2]
+                    if wa.is_const() and wb.is_const() or not ((wa.syms() | wb.syms()) & rel):
+                        continue
+                    if a.cons.entails_le(za - wa) and b.cons.entails_le(zb - wb):
+                        s.cons.add_le(z - w)
+                    if a.cons.entails_le(wa - za) and b.cons.entails_le(wb - zb):
+                        s.cons.add_le(w - z)
         s.mem = {k_: v_ for k_, v_ in a.mem.items() if b.mem.get(k_) == v_}
         s.facts = a.facts if a.facts == b.facts else ()
         for c in a.cons.cs:
@@ -208,6 +258,35 @@ class Analyzer(Interp):
             if a.cons.entails_le(c):
                 s.cons.add_le(c)
         return s
+
+    def tight_bound(self, st, v, upper):
+        """A constant c with st |- v <= c (upper) or st |- v >= c, the best among the constants that occur in the constraints
+        related to v (bisection over that finite candidate list: entailment is monotone in c); None when none is entailed."""
+        if v.is_const():
+            return int(v.c)
+        from .lin import _cone
+        sign = 1 if upper else -1
+        e = v.scale(sign)                 # find a small c with e <= c
+        cands = {0, 1, -1}
+        for c in _cone(st.cons.cs, v.syms()):
+            k = int(c.c)
+            cands |= {k, -k, k + 1, k - 1, -k + 1, -k - 1}
+        for t_, co in v.t.items():
+            pass
+        # bounds of v itself scale with its coefficients: add products with small coefficients
+        coefs = {abs(int(x)) for x in v.t.values() if x.denominator == 1 and abs(x) <= 4096}
+        cands |= {k * m for k in list(cands) for m in coefs if abs(k) < (1 << 40)}
+        cands = sorted(cands)
+        if not st.cons.entails_le(e - cands[-1]):
+            return None
+        lo, hi = -1, len(cands) - 1       # invariant: entails e <= cands[hi]
+        while hi - lo > 1:
+            mid = (lo + hi) // 2
+            if st.cons.entails_le(e - cands[mid]):
+                hi = mid
+            else:
+                lo = mid
+        return sign * cands[hi]
 
     # ---- statements -------------------------------------------------------------------------------------------------------
     def exec(self, fn, n, states, fr):
@@ -357,7 +436,7 @@ class Analyzer(Interp):
             if isinstance(v, Obj):
                 # copying a container copies its length, not its identity
                 nb = 'buf_%s%d' % (re.sub(r'[^A-Za-z0-9_]', '_', nd.get('n', 'v'))[:12], next(self._sym))
-                s.lens[nb] = s.lens.get(v.buf, self.fresh(s, 'len', 'unsigned long'))
+                s.lens[nb] = s.lens.get(v.buf, self.fresh_len(s))
                 v = Obj(nb)
             s.env[key] = v
 
@@ -561,7 +640,7 @@ class Analyzer(Interp):
                     else:
                         head.env[key] = nv
             for b_ in len_changed:
-                head.lens[b_] = self.fresh(head, 'len', 'unsigned long')
+                head.lens[b_] = self.fresh_len(head)
             for c in cands:
                 vals = c['f'](lambda key_: self._num(head.env.get(key_)))
                 if vals is None:
@@ -609,6 +688,14 @@ class Analyzer(Interp):
         fl.normal = self.prune(exits + brks)
         return fl
 
+    def _live_bufs(self, st):
+        out = set()
+        for v in st.env.values():
+            b = getattr(v, 'buf', None)
+            if b is not None:
+                out.add(b)
+        return out
+
     def loop_candidates(self, h0, free, probe_ends):
         """Candidate loop invariants relating the loop-entry values (Lin over entry symbols) of the freely changing keys to
         their values at a later head: constant bounds, monotonicity, conserved sums and differences of pairs.
@@ -628,6 +715,11 @@ class Analyzer(Interp):
                           'f': (lambda get, key=key, v0=v0: None if get(key) is None else [v0 - get(key)])})
             cands.append({'name': '%s non-increasing' % name(key), 'keys': {key},
                           'f': (lambda get, key=key, v0=v0: None if get(key) is None else [get(key) - v0])})
+        for key in free:
+            for b_, ln_ in h0.lens.items():
+                if isinstance(ln_, Lin) and not ln_.is_const() and b_ in self._live_bufs(h0):
+                    cands.append({'name': '%s <= len(%s)' % (name(key), b_), 'keys': {key},
+                                  'f': (lambda get, key=key, ln_=ln_: None if get(key) is None else [get(key) - ln_])})
         for i, k1 in enumerate(free):
             for k2 in free[i + 1:]:
                 for sign, nm in ((1, '+'), (-1, '-')):
@@ -776,7 +868,7 @@ class Analyzer(Interp):
                 else:
                     head.env[key] = nv
             for b in lenc:
-                head.lens[b] = self.fresh(head, 'len', 'unsigned long')
+                head.lens[b] = self.fresh_len(head)
             ends, _b = self.silent(lambda: body_once(head.copy()), fr)
             grew = False
             for e in ends:
@@ -821,7 +913,7 @@ class Analyzer(Interp):
         if isinstance(v, Obj):
             ln = st.lens.get(v.buf)
             if ln is None:
-                ln = self.fresh(st, 'len', 'unsigned long')
+                ln = self.fresh_len(st)
                 st.lens[v.buf] = ln
             return v.buf, Lin.const(0), ln
         return None
@@ -957,6 +1049,9 @@ class Analyzer(Interp):
                 vw = self.view_of(s, v)
                 out.append((s, vw[2] if vw else self.fresh(s, 'sz', 'unsigned long')))
             return out
+        mz = re.match(r'std::chrono::duration<.*>::(zero|max|min)$', c)
+        if mz and not args:
+            return [(st, Lin.const({'zero': 0, 'max': INT64_MAX, 'min': -INT64_MAX - 1}[mz.group(1)]))]
         if c == 'std::chrono::duration_cast':
             out = []
             src_t = fn.nodes[args[0]].get('t') if args else None
@@ -998,12 +1093,14 @@ class Analyzer(Interp):
                         s.env.pop(key, None)
                         self.kill_prefix(s, key)
             self.fact(s, ('call', fn.nodes[n].get('l'), c, tuple(vals)))
+            self.log_call(fn, n, c, vals, s)
             out.append((s, self.fresh_for_type(s, t, m or 'call') if t and t != 'void' else UNK))
         return out
 
     def inline(self, fn, n, st, fr, callee, args, this_key=None):
         out = []
         for s, vals in self.evs(fn, args, st, fr):
+            self.log_call(fn, n, callee.q, vals, s)
             f2 = Frame(callee, fr.depth + 1, this=this_key)
             for p, a, v in zip(callee.params, args, vals):
                 pt = p.get('t', '')
@@ -1033,7 +1130,7 @@ class Analyzer(Interp):
 
     def _cap(self, pairs):
         live = [(s, v) for s, v in pairs if not s.cons.bottom]
-        if len(live) <= MAX_STATES:
+        if len(live) <= self.max_states:
             return live
         # merge states with equal return value representation
         merged = {}
@@ -1055,6 +1152,10 @@ class Analyzer(Interp):
 
     def fact(self, st, f):
         st.facts = st.facts + (f,)
+
+    def log_call(self, fn, n, c, vals, st, recv=None):
+        if self.recording and self.watch is not None and self.watch(c):
+            self.calls.append({'fn': fn, 'node': n, 'callee': c, 'args': list(vals), 'state': st.copy(), 'recv': recv, 'stack': list(self.call_stack)})
 
     # ---- std::chrono ---------------------------------------------------------------------------------------------------------------
     def convert_duration(self, fn, n, s, v, src_t, dst_t):
@@ -1164,9 +1265,9 @@ class Analyzer(Interp):
                     s.lens[b] = self.view_of(s, vals[0])[2]
                 elif len(vals) >= 2 and (isinstance(vals[0], Ptr) or isinstance(vals[1], Ptr)):
                     self.oblige('bound', fn, n, s, [None], 'range constructor over iterators of different / untracked buffers')
-                    s.lens[b] = self.fresh(s, 'len', 'unsigned long')
+                    s.lens[b] = self.fresh_len(s)
                 else:
-                    s.lens[b] = self.fresh(s, 'len', 'unsigned long')
+                    s.lens[b] = self.fresh_len(s)
                 out.append((s, Obj(b)))
             return out
         n_arr = array_len(tt)
@@ -1235,6 +1336,7 @@ class Analyzer(Interp):
                 return self.inline_member(fn, n, st, fr, cands[0], args, tk)
             for s, _ov in (self.ev(fn, objn, st, fr) if objn is not None else [(st, UNK)]):
                 for s2, _vals in self.evs(fn, args, s, fr):
+                    self.log_call(fn, n, c, _vals, s2, recv=objn)
                     if not fn.nodes[n].get('cconst') and objn is not None:
                         key = self.lkey(fn, objn, fr)
                         if key is not None:
@@ -1300,9 +1402,25 @@ class Analyzer(Interp):
                             res = Span(buf, off + vals[0], vals[1])
                         else:
                             res = Span(buf, off + vals[0], ln - vals[0])
+                elif m == 'rfind' and len(vals) == 2 and isinstance(vals[1], Lin) and vals[1] == Lin.const(0):
+                    # s.rfind(x, 0) is 0 exactly when s starts with x (then size() >= strlen(x)), npos otherwise
+                    np_ = self.as_ptr(s2, vals[0])
+                    nl_ = s2.lens.get(np_.buf) if np_ is not None else None
+                    is_arr = 'char[' in (fn.nodes[fn.strip(args[0])].get('t') or '')
+                    nlen = nl_ - np_.off - 1 if nl_ is not None and nl_.is_const() and is_arr else Lin.const(0)
+                    s_hit, s_miss = s2.copy(), s2
+                    s_hit.cons.add_le(nlen - ln)
+                    if not s_hit.cons.is_unsat():
+                        out.append((s_hit, Lin.const(0)))
+                    out.append((s_miss, Lin.const((1 << 64) - 1)))
+                    continue
                 elif m in ('substr',):
+                    if vals and isinstance(vals[0], Lin):
+                        self.oblige('range', fn, n, s2, [vals[0] - ln], 'substr(pos): pos <= size() (std::out_of_range otherwise)')
+                    elif vals:
+                        self.oblige('range', fn, n, s2, [None], 'substr(pos): untracked position')
                     nb = 'buf_s%d' % next(self._sym)
-                    nl = self.fresh(s2, 'len', 'unsigned long')
+                    nl = self.fresh_len(s2)
                     s2.cons.add_le(nl - ln)
                     if len(vals) >= 2 and isinstance(vals[1], Lin):
                         s2.cons.add_le(nl - vals[1])
@@ -1331,7 +1449,7 @@ class Analyzer(Interp):
                     else:
                         if vals and (isinstance(vals[0], Ptr) or len(vals) > 1 and isinstance(vals[1], Ptr)):
                             self.oblige('bound', fn, n, s2, [None], 'assign over an untracked range')
-                        s2.lens[ov.buf] = self.fresh(s2, 'len', 'unsigned long')
+                        s2.lens[ov.buf] = self.fresh_len(s2)
                     res = UNK
                 elif m in ('insert', 'append', 'erase', 'operator+=', 'reserve', 'shrink_to_fit', 'swap', 'fill', 'remove_prefix', 'remove_suffix', 'emplace'):
                     if m == 'insert' and len(vals) == 3:
@@ -1346,7 +1464,7 @@ class Analyzer(Interp):
                         p_ = self.as_ptr(s2, vals[0])
                         self.access(fn, n, s2, p_.buf, p_.off, vals[1], 'append(ptr, n) source')
                     if isinstance(ov, Obj) and m not in ('reserve', 'fill', 'shrink_to_fit'):
-                        s2.lens[ov.buf] = self.fresh(s2, 'len', 'unsigned long')
+                        s2.lens[ov.buf] = self.fresh_len(s2)
                     if isinstance(ov, Span) and key is not None and m in ('remove_prefix', 'remove_suffix'):
                         s2.env[key] = self.fresh_for_type(s2, 'std::span<x>', 'view')
                     res = UNK
@@ -1354,7 +1472,7 @@ class Analyzer(Interp):
                     res = self.fresh_for_type(s2, t, m)
                 else:
                     if not fn.nodes[n].get('cconst') and isinstance(ov, Obj):
-                        s2.lens[ov.buf] = self.fresh(s2, 'len', 'unsigned long')
+                        s2.lens[ov.buf] = self.fresh_len(s2)
                     res = self.fresh_for_type(s2, t, m) if t and t != 'void' else UNK
                 out.append((s2, res))
         return out
@@ -1395,6 +1513,7 @@ class Analyzer(Interp):
             return out
         if op in ('+', '-') and len(operands) == 2:
             for s, (a, b) in self.evs(fn, operands, st, fr):
+                self.log_call(fn, n, c, [a, b], s)
                 if isinstance(a, Ptr) and isinstance(b, Lin):
                     out.append((s, Ptr(a.buf, a.off + b if op == '+' else a.off - b)))
                 elif isinstance(a, Ptr) and isinstance(b, Ptr) and op == '-' and a.buf == b.buf:
@@ -1431,7 +1550,7 @@ class Analyzer(Interp):
                         self.kill_prefix(s2, key)
                         if isinstance(v, Obj):
                             nb = 'buf_a%d' % next(self._sym)
-                            s2.lens[nb] = s2.lens.get(v.buf, self.fresh(s2, 'len', 'unsigned long'))
+                            s2.lens[nb] = s2.lens.get(v.buf, self.fresh_len(s2))
                             s2.env[key] = Obj(nb)
                         elif isinstance(v, Unknown):
                             nv = self.fresh_for_type(s2, (fn.nodes[operands[0]].get('t') or '').replace('const ', ''), 'asg')
@@ -1517,7 +1636,7 @@ def analyse(P, entries, inline=None, contracts=None, max_depth=None):
     return sites, info
 
 
-def report(ck, rule_prefix, sites, kinds=('bound', 'chrono', 'loop')):
+def report(ck, rule_prefix, sites, kinds=('bound', 'chrono', 'loop', 'range')):
     """Turn merged site verdicts into check obligations with keys stable under unrelated edits:
     <prefix>.<kind>/<function>/<label>#<ordinal in source order>."""
     from .prog import short
